@@ -7,7 +7,7 @@
 //   failure on its own (map_node.cpp: pull of child.next_scheduled_time() after a captured child failure, graph.cpp nested
 //   evaluate after failure, node.cpp scheduler tail).
 //   enumerated: number of keys (1, 2); WHO throws: TK (the node next to / downstream of Beat) or Beat itself (after re-arming)
-//   symbolic  : every re-arm delta of every key ([1,PMAX], so the two keys have different / equal periods), payloads,
+//   symbolic  : every re-arm delta of key 0 and the period of key 1 ([1,PMAX], so the keys have different / equal periods), payloads,
 //               the SET of evaluations in which key k's child throws, the second tick time of the independent source
 //   oracle    : run 0 (faults armed) vs run 1 (fault-free twin) inside one path: no exception escapes; one error tick per
 //               throw under the failing key only, in that cycle, with the message; every key's Beat is evaluated at exactly
@@ -203,13 +203,15 @@ extern "C" int harness_main() {
 
     g_nk = 1 + verif_choice("nkeys", 2);
     g_beat_throws = verif_bool("beat_throws");
-    g_sdelta = verif_range("sdelta", 1, PMAX * NBEAT);
+    g_sdelta = verif_range("sdelta", 1, PMAX);
     for (int c = 0; c < 2; c++) g_sval[c] = verif_range("sval", -1000, 1000);
     for (int k = 0; k < 2; k++) {
         g_kval[k] = verif_range("kval", -1000, 1000);
         for (int j = 0; j < NBEAT; j++) {
-            g_pd[k][j] = verif_range("period", 1, PMAX);
-            g_throwK[k][j] = verif_range("throwK", 0, 1);
+            // key 0: one symbolic delta per re-arm; key 1: ONE symbolic period (keeps the number of time orderings small)
+            g_pd[k][j] = (k == 0 || j == 0) ? verif_range("period", 1, PMAX) : g_pd[1][0];
+            // key 1's last beat never throws (bound; key 0: every subset)
+            g_throwK[k][j] = (k == 0 || j + 1 < NBEAT) ? verif_range("throwK", 0, 1) : 0;
         }
     }
 
